@@ -695,6 +695,7 @@ type Facts struct {
 	HasGo           bool
 	MemVars         int
 	DefineMem       []string // name := expr with a memory (non reg_) name
+	DefineMemShadow []string // … that shadows a visible name: the new binding is never filed, reads go to the outer variable
 	// shadowing (Go block scoping): an inner var / := of a name that is visible from an enclosing scope
 	Shadowing int
 	// declarations met in a compiling context that has no variable map of its own (switch case bodies, the
@@ -912,6 +913,10 @@ func (w *factWalker) stmt(s ast.Stmt) {
 					} else {
 						w.lab("define-mem")
 						w.f.DefineMem = append(w.f.DefineMem, id.Name)
+						if b := w.goFind(id.Name); b != nil && b.shadows != nil {
+							w.f.DefineMemShadow = append(w.f.DefineMemShadow, id.Name)
+							w.lab("define-mem-shadowing")
+						}
 					}
 				}
 			}
